@@ -155,6 +155,9 @@ func earlyExitKnobs(p *CallPlan) {
 func genRich(t *core.Tape, tier, prop string) *Scenario {
 	sc := &Scenario{Prop: prop, Notes: map[string]int{}}
 	sc.PoolFIFO = t.Bool(1, 4, "poolfifo")
+	if t.Bool(1, 6, "pooldrop") {
+		sc.PoolDrop = uint32(1 + t.Choose(1<<20, "pooldrop.seed"))
+	}
 	h := genHandlerCfg(t)
 	c := genClientCfg(t)
 	fixCompat(&c, &h)
